@@ -207,3 +207,48 @@ Proof.
     apply existsb_exists in Ha. apply existsb_exists in Hr. rewrite Ha, Hr.
     rewrite He. reflexivity.
 Qed.
+
+(* ---------- histories of PutUserPolicy (the code only ever appends) ---------- *)
+Definition put_history (prior : list string) (docs : list (list statement)) : list string :=
+  fold_left put_user_policy docs prior.
+
+Theorem put_history_sound : forall docs prior action bucket,
+  is_s3_action action = true ->
+  can_do (put_history prior docs) action bucket = true ->
+  can_do prior action bucket = true \/ exists doc, In doc docs /\ named doc action bucket = true.
+Proof.
+  induction docs as [|d docs IH]; intros prior action bucket Ha H; simpl in *; auto.
+  apply IH in H; auto. destruct H as [H|[doc [Hin Hn]]].
+  - apply put_user_policy_sound in H; auto. destruct H as [H|H]; auto.
+    right. exists d. auto.
+  - right. exists doc. auto.
+Qed.
+
+(* nothing is ever revoked: re-putting a narrower document (same PolicyName or not) keeps
+   every earlier grant *)
+Theorem put_history_never_revokes : forall docs prior action bucket,
+  can_do prior action bucket = true -> can_do (put_history prior docs) action bucket = true.
+Proof.
+  induction docs as [|d docs IH]; intros prior action bucket H; simpl; auto.
+  apply IH. unfold put_user_policy. rewrite can_do_app, H. reflexivity.
+Qed.
+
+(* "the user's grants are those of the policy document put last" FAILS *)
+Definition doc_wide : list statement :=
+  [ {| st_effect := "Allow"; st_actions := ["s3:*"]; st_resources := ["arn:aws:s3:::*"] |} ].
+Definition doc_narrow : list statement :=
+  [ {| st_effect := "Allow"; st_actions := ["s3:Get*"]; st_resources := ["arn:aws:s3:::b1/*"] |} ].
+
+Lemma last_document_bound_refuted :
+  can_do (put_history [] [doc_wide; doc_narrow]) ACTION_WRITE "b2" = true /\
+  named doc_narrow ACTION_WRITE "b2" = false /\ named doc_wide ACTION_WRITE "b2" = true.
+Proof. vm_compute. auto. Qed.
+
+Lemma policy_example :
+  let doc := [ {| st_effect := "Allow"; st_actions := ["s3:Get*"; "s3:List*"]; st_resources := ["arn:aws:s3:::b1/*"] |};
+               {| st_effect := "Deny"; st_actions := ["s3:*"]; st_resources := ["arn:aws:s3:::*"] |} ] in
+  get_actions doc = ["Read:b1"; "List:b1"] /\
+  can_do (get_actions doc) ACTION_READ "b1" = true /\ named doc ACTION_READ "b1" = true /\
+  can_do (get_actions doc) ACTION_READ "b2" = false /\
+  can_do (get_actions doc) ACTION_WRITE "b1" = false /\ named doc ACTION_WRITE "b1" = false.
+Proof. vm_compute. repeat split; reflexivity. Qed.
